@@ -1099,4 +1099,34 @@ theorem accept_after_close_schedule_fixed (k : Key) :
 theorem closeReturns_separates : ¬ CloseReturns next ∧ CloseReturns nextFixed :=
   ⟨not_close_returns, close_returns_fixed⟩
 
+
+/-! ## further non-vacuity examples -/
+
+
+def kEx : Key := ⟨.tcp, "127.0.0.1", 80⟩
+
+/-- non-vacuity of `unmatched_rejected`: handlers started, one well-formed open queued, nothing registered -/
+example : ∃ s', next { init with started := true, htcp := ⟨[fw 1 kEx], none⟩ } (.hTake .tcp) = some s' ∧
+    s'.log = [.reject 1 1] := by
+  obtain ⟨s', h1, h2, _, _⟩ := unmatched_rejected { init with started := true, htcp := ⟨[fw 1 kEx], none⟩ } .tcp
+    (fw 1 kEx) [] rfl rfl rfl rfl (by simp [init]) rfl
+  exact ⟨s', h1, by rw [h2]; rfl⟩
+
+/-- non-vacuity of `parked_needs_two_unaccepted` and `close_enabled_iff_unlocked`: the F3 witness state satisfies their
+    hypotheses (a parked handler whose send cannot complete; a pending Close whose step is disabled) -/
+example : ((witnessState kEx).h .tcp).pc = some (fw 2 kEx, 0) ∧ next (witnessState kEx) (.hSend .tcp) = none ∧
+    (next (witnessState kEx) (.closeRun 3)).isSome = false ∧ locked (witnessState kEx) = true := by
+  simp [witnessState, kEx, State.h, State.setH, init, next, getLst, fw, locked]
+
+/-- non-vacuity of `accept_after_close_errors` / `closed_stays_closed_empty`: Listen, Close, then Accept -/
+example : ∃ s, Reachable s ∧ ClosedEmpty s.lsts 0 ∧ s.acceptors.find? (·.1 = 4) = some (4, 0) ∧
+    ∃ s', next s (.accRun 4) = some s' ∧ s'.log = .accept 4 0 none :: s.log := by
+  have h : ∃ s, run [.listenCall 0 kEx false, .addRun 0, .closeCall 2 0 true, .closeRun 2, .acceptCall 4 0] = some s ∧
+      ClosedEmpty s.lsts 0 ∧ s.acceptors.find? (·.1 = 4) = some (4, 0) := by
+    simp [ClosedEmpty, kEx]; run_simp
+  obtain ⟨s, hr, hce, hacc⟩ := h
+  obtain ⟨l, hl, hc, hb⟩ := hce
+  exact ⟨s, reachable_of_run_init hr, ⟨l, hl, hc, hb⟩, hacc, accept_after_close_errors s 4 0 l hacc hl hc hb⟩
+
+
 end XC.C37
